@@ -2,6 +2,8 @@ import A2Verif.Lemmas.FsCpmModify
 import A2Verif.Lemmas.FsCpmRename3
 import A2Verif.Lemmas.FsCpmPut2
 import A2Verif.Lemmas.FsCpmPutAbs4
+import A2Verif.Lemmas.FsCpmAccept5
+import A2Verif.Lemmas.FsCpmProtect4
 import A2Verif.Lemmas.FsCpmQuery
 import A2Verif.Lemmas.FsCpmFormat
 import A2Verif.Lemmas.FsCpmCheck
@@ -150,6 +152,9 @@ inductive Op where
   | lock (xname : Bytes)
   | unlock (xname : Bytes)
   | retype (xname ty : Bytes)
+  /-- CP/M 3: password, and which of read / write / delete it guards -/
+  | protect (xname password : Bytes) (rd wr del : Bool)
+  | unprotect (xname : Bytes)
 
 /-- run one operation on an image: (did it report success, the image afterwards) -/
 def Op.run (d : Dpb) (r : Raw) : Op → Bool × Raw
@@ -159,19 +164,52 @@ def Op.run (d : Dpb) (r : Raw) : Op → Bool × Raw
   | .lock x => (okB (Fs.Cpm.lock d r x).1, (Fs.Cpm.lock d r x).2)
   | .unlock x => (okB (Fs.Cpm.unlock d r x).1, (Fs.Cpm.unlock d r x).2)
   | .retype x ty => (okB (Fs.Cpm.retype d r x ty).1, (Fs.Cpm.retype d r x ty).2)
+  | .protect x pw rd wr del => (okB (Fs.Cpm.protect d r x pw rd wr del).1, (Fs.Cpm.protect d r x pw rd wr del).2)
+  | .unprotect x => (okB (Fs.Cpm.unprotect d r x).1, (Fs.Cpm.unprotect d r x).2)
 
-/-- the abstract operation a concrete one stands for (`canon`: user prefix `0:` dropped, upper case, `.` appended to a bare name) -/
-def Op.abs : Op → FsOp
+/-- the abstract operation a concrete one stands for, in the state whose reading is `v` (`canon`: user prefix `0:` dropped, upper
+case, `.` appended to a bare name).  `protect`/`unprotect` change the password entry of a file: for the specification a
+`retype`-like step (content kept, nothing else touched).  `unprotect` does not look for the file, only for a password entry: when
+no file of that name exists it stands for `other` (nothing in the reading may change) — the only place where `v` matters. -/
+def Op.abs (v : Vol) : Op → FsOp
   | .put f _ => .put (canon f.fullPath) (putChunks f) f.eof 0 0
   | .delete x => .delete (canon x)
   | .rename o n => .rename (canon o) (canon n)
   | .lock x => .lock (canon x)
   | .unlock x => .unlock (canon x)
   | .retype x _ => .retype (canon x)
+  | .protect x _ _ _ _ => .retype (canon x)
+  | .unprotect x => unprotectAbs v x
 
-/-- the arguments the refinement theorem covers: file images in `PutArgsOk` (the other operations: any argument) -/
+/-- the paths an operation names -/
+def Op.names : Op → List Bytes
+  | .put f _ => [canon f.fullPath]
+  | .delete x => [canon x]
+  | .rename o n => [canon o, canon n]
+  | .lock x => [canon x]
+  | .unlock x => [canon x]
+  | .retype x _ => [canon x]
+  | .protect x _ _ _ _ => [canon x]
+  | .unprotect x => [canon x]
+
+theorem Op.abs_targets (v : Vol) (op : Op) : ∀ q ∈ (op.abs v).targets, q ∈ op.names := by
+  cases op with
+  | unprotect x =>
+    intro q hq
+    show q ∈ [canon x]
+    have hq' : q ∈ (unprotectAbs v x).targets := hq
+    unfold unprotectAbs at hq'
+    split at hq'
+    · exact hq'
+    · cases hq'
+  | _ => intro q hq; exact hq
+
+/-- the arguments the refinement theorem covers: file images in `PutArgsOk`; `protect`/`unprotect` with a valid name (no trailing
+blanks, which `protect` — unlike every other operation — would accept); the other operations: any argument -/
 def Op.Ok (d : Dpb) : Op → Prop
   | .put f _ => PutArgsOk d f
+  | .protect x _ _ _ _ => isXnameValid x = true
+  | .unprotect x => isXnameValid x = true
   | _ => True
 
 instance (d : Dpb) (op : Op) : Decidable (op.Ok d) := by
@@ -183,27 +221,44 @@ structure DpbGood (d : Dpb) : Prop where
   resv : ResvOk d
   put : DpbPut d
 
+/-- the operations that only touch flags / password entries -/
+def Op.isFlagOp : Op → Bool
+  | .retype _ _ | .protect _ _ _ _ _ | .unprotect _ => true
+  | _ => false
+
 /-- **Refinement, one step**: every operation of the concrete model preserves the invariant and is a transition
-the abstract specification allows between the readings before and after -/
+the abstract specification allows between the readings before and after; `retype`, `protect`, `unprotect` moreover keep
+content, length, blocks and the read-only flag of every file (`ContentKept`) -/
 theorem step_refines {d : Dpb} {r : Raw} (h : Inv d r) (hg : DpbGood d) (op : Op) (hok : op.Ok d) :
-    Inv d (op.run d r).2 ∧ stepOk (cpmParams d) (volOf d r) op.abs (op.run d r).1 (volOf d (op.run d r).2) = true := by
+    Inv d (op.run d r).2 ∧
+    stepOk (cpmParams d) (volOf d r) (op.abs (volOf d r)) (op.run d r).1 (volOf d (op.run d r).2) = true ∧
+    (op.isFlagOp = true → ContentKept (volOf d r) (volOf d (op.run d r).2)) := by
   cases op with
   | put f now =>
     show Inv d (Fs.Cpm.put d r f now).2 ∧ stepOk (cpmParams d) (volOf d r) (.put (canon f.fullPath) (putChunks f) f.eof 0 0)
-      (okB (Fs.Cpm.put d r f now).1) (volOf d (Fs.Cpm.put d r f now).2) = true
+      (okB (Fs.Cpm.put d r f now).1) (volOf d (Fs.Cpm.put d r f now).2) = true ∧ _
     cases hres : (Fs.Cpm.put d r f now).1 with
     | ok u =>
       cases u
-      exact put_step h hg.resv hg.put hok (Prod.ext hres rfl)
+      obtain ⟨a, b⟩ := put_step h hg.resv hg.put hok (Prod.ext hres rfl)
+      exact ⟨a, b, fun hc => by cases hc⟩
     | error e =>
       obtain ⟨a, _, c⟩ := put_error_step (res := .error e) h hg.resv (Prod.ext hres rfl) rfl
         (.put (canon f.fullPath) (putChunks f) f.eof 0 0)
-      exact ⟨a, c⟩
-  | delete x => exact delete_refines h rfl
-  | rename o n => exact rename_refines h rfl
-  | lock x => exact lock_refines h rfl
-  | unlock x => exact unlock_refines h rfl
-  | retype x ty => exact retype_refines h rfl
+      exact ⟨a, c, fun hc => by cases hc⟩
+  | delete x => obtain ⟨a, b⟩ := delete_refines (d := d) (r := r) (xname := x) h rfl; exact ⟨a, b, fun hc => by cases hc⟩
+  | rename o n => obtain ⟨a, b⟩ := rename_refines (d := d) (r := r) (oldX := o) (newX := n) h rfl; exact ⟨a, b, fun hc => by cases hc⟩
+  | lock x => obtain ⟨a, b⟩ := lock_refines (d := d) (r := r) (xname := x) h rfl; exact ⟨a, b, fun hc => by cases hc⟩
+  | unlock x => obtain ⟨a, b⟩ := unlock_refines (d := d) (r := r) (xname := x) h rfl; exact ⟨a, b, fun hc => by cases hc⟩
+  | retype x ty =>
+    obtain ⟨a, b⟩ := retype_refines (d := d) (r := r) (xname := x) (ty := ty) h rfl
+    exact ⟨a, b, fun _ => retype_kept h rfl⟩
+  | protect x pw rd wr del =>
+    obtain ⟨a, b, c⟩ := protect_refines (d := d) (r := r) (x := x) (password := pw) (rd := rd) (wr := wr) (del := del) h hok rfl
+    exact ⟨a, b, fun _ => c⟩
+  | unprotect x =>
+    obtain ⟨a, b, c⟩ := unprotect_refines (d := d) (r := r) (x := x) h hok rfl
+    exact ⟨a, b, fun _ => c⟩
 
 theorem delete_step {d : Dpb} {r r' : Raw} {x : Bytes} {res : R Unit} (h : Inv d r) (hop : Fs.Cpm.delete d r x = (res, r')) :
     Inv d r' ∧ stepOk (cpmParams d) (volOf d r) (.delete (canon x)) (okB res) (volOf d r') = true := delete_refines h hop
@@ -217,18 +272,63 @@ theorem unlock_step {d : Dpb} {r r' : Raw} {x : Bytes} {res : R Unit} (h : Inv d
 theorem retype_step {d : Dpb} {r r' : Raw} {x ty : Bytes} {res : R Unit} (h : Inv d r) (hop : Fs.Cpm.retype d r x ty = (res, r')) :
     Inv d r' ∧ stepOk (cpmParams d) (volOf d r) (.retype (canon x)) (okB res) (volOf d r') = true := retype_refines h hop
 
+/-- **`protect` (CP/M 3 passwords) refines the specification**: refused → nothing changes; accepted → the file `canon x` keeps
+content, length and blocks, every other file is identical (a `retype`-like step: only `access` of one record can change), and no
+file loses its read-only flag.  (`hx`: a valid name; a2kit does not check passwords on `delete`/`rename`/`get`, so a password alone
+does not make a file survive — the read-only flag does, `cpm_readonly_survives`.) -/
+theorem protect_step {d : Dpb} {r r' : Raw} {x pw : Bytes} {rd wr del : Bool} {res : R Unit} (h : Inv d r) (hx : isXnameValid x = true)
+    (hop : Fs.Cpm.protect d r x pw rd wr del = (res, r')) :
+    Inv d r' ∧ stepOk (cpmParams d) (volOf d r) (.retype (canon x)) (okB res) (volOf d r') = true ∧
+      ContentKept (volOf d r) (volOf d r') := protect_refines h hx hop
+
+/-- **`unprotect` refines the specification** (as `protect_step`; when no file of that name exists — a stray password entry — the
+reading does not change at all) -/
+theorem unprotect_step {d : Dpb} {r r' : Raw} {x : Bytes} {res : R Unit} (h : Inv d r) (hx : isXnameValid x = true)
+    (hop : Fs.Cpm.unprotect d r x = (res, r')) :
+    Inv d r' ∧ stepOk (cpmParams d) (volOf d r) (unprotectAbs (volOf d r) x) (okB res) (volOf d r') = true ∧
+      ContentKept (volOf d r) (volOf d r') := unprotect_refines h hx hop
+
+/-- **C04, acceptance ("a file that fits is accepted")**: on an image satisfying the invariant whose directory a2kit's own
+`build_files` accepts (`hb`; where the label asks for time stamps the directory is laid out as `add_timestamps` does, `hts`), a `put`
+of a file image for this file system and block size (`hf`; in the repaired tree — `guardIface` — also: none of the interface
+attributes F5–F8 set) in the class `PutArgsOk`, under a valid name (`hname`) that the listing
+does not hold (`habs`), **with no more chunks than the reader finds free units** (`hfree`) **and needing no more extents than the
+directory has unused entries** (`hext`; `extentsNeeded` = physical extents that hold a chunk), **is accepted** — and the step is the
+abstract `put` (`put_step`).  Whatever the allocation state is: first-fit always finds a block and an entry. -/
+theorem cpm_fits_is_accepted {d : Dpb} {r : Raw} {f : FImg} {now : Bytes} (h : Inv d r) (hg : DpbGood d) (hc : ResvCount d)
+    (hsmall : d.dsm + 1 < 65536) (hb : okB (buildFiles d d.v3 (dirOf d r)) = true) (hts : tsLayoutB (dirOf d r) = true)
+    (hf : f.fsOk = true ∧ f.chunkLen = blockSize d ∧ 3 ≤ f.fsType.length ∧ (f.guardIface && f.ifaceFlags) = false) (ha : PutArgsOk d f)
+    (hname : isXnameValid f.fullPath = true) (habs : (volOf d r).lookup (canon f.fullPath) = none)
+    (hfree : f.chunks.length ≤ (volOf d r).free)
+    (hext : extentsNeeded f (putMaxX d f) (putSpe d) ≤ numFreeExtents (dirOf d r)) :
+    ∃ r', Fs.Cpm.put d r f now = (.ok (), r') ∧ Inv d r' ∧
+      stepOk (cpmParams d) (volOf d r) (.put (canon f.fullPath) (putChunks f) f.eof 0 0) true (volOf d r') = true := by
+  cases hbf : buildFiles d d.v3 (dirOf d r) with
+  | error e => rw [hbf] at hb; cases hb
+  | ok files =>
+    unfold isXnameValid at hname
+    cases hsp : splitUserFilename f.fullPath with
+    | error e => rw [hsp] at hname; cases hname
+    | ok un =>
+      obtain ⟨user, name⟩ := un
+      rw [hsp] at hname
+      simp only [Bool.and_eq_true] at hname
+      obtain ⟨r', hput⟩ := put_accepts (now := now) h hg.resv hc hg.put hsmall hbf hf.1 hf.2.1 hf.2.2.1 hf.2.2.2 ha hsp hname.1 habs hfree hext hts
+      obtain ⟨a, b⟩ := put_step h hg.resv hg.put ha hput
+      exact ⟨r', hput, a, b⟩
+
 /-! ## histories -/
 
 def trace (d : Dpb) : Raw → List Op → List Step
   | _, [] => []
-  | r, op :: ops => ⟨op.abs, (op.run d r).1, volOf d (op.run d r).2⟩ :: trace d (op.run d r).2 ops
+  | r, op :: ops => ⟨op.abs (volOf d r), (op.run d r).1, volOf d (op.run d r).2⟩ :: trace d (op.run d r).2 ops
 
 def finalRaw (d : Dpb) : Raw → List Op → Raw
   | r, [] => r
   | r, op :: ops => finalRaw d (op.run d r).2 ops
 
-/-- **Refinement, histories**: every history of concrete operations (`put`, `delete`, `rename`, `lock`, `unlock`, `retype`;
-successful and refused), started from an image satisfying the invariant, is a valid trace of the abstract specification; the
+/-- **Refinement, histories**: every history of concrete operations (`put`, `delete`, `rename`, `lock`, `unlock`, `retype`,
+`protect`, `unprotect`; successful and refused), started from an image satisfying the invariant, is a valid trace of the abstract specification; the
 invariant holds at the end and the final reading is the reading of the final image -/
 theorem history_refines {d : Dpb} (hg : DpbGood d) : ∀ (ops : List Op) {r : Raw}, Inv d r → (∀ op ∈ ops, op.Ok d) →
     validFrom (cpmParams d) (volOf d r) (trace d r ops) ∧ Inv d (finalRaw d r ops) ∧
@@ -238,21 +338,21 @@ theorem history_refines {d : Dpb} (hg : DpbGood d) : ∀ (ops : List Op) {r : Ra
   | nil => intro r h _; exact ⟨trivial, h, rfl⟩
   | cons op ops ih =>
     intro r h hok
-    obtain ⟨h1, h2⟩ := step_refines h hg op (hok op List.mem_cons_self)
+    obtain ⟨h1, h2, _⟩ := step_refines h hg op (hok op List.mem_cons_self)
     obtain ⟨a, b, c⟩ := ih h1 (fun o ho => hok o (List.mem_cons_of_mem _ ho))
     refine ⟨⟨h2, a⟩, b, ?_⟩
-    show finalVol (volOf d r) (⟨op.abs, (op.run d r).1, volOf d (op.run d r).2⟩ :: trace d (op.run d r).2 ops) = _
+    show finalVol (volOf d r) (⟨op.abs (volOf d r), (op.run d r).1, volOf d (op.run d r).2⟩ :: trace d (op.run d r).2 ops) = _
     rw [finalVol_cons]
     exact c
 
-theorem mem_trace {d : Dpb} : ∀ {ops : List Op} {r : Raw} {s : Step}, s ∈ trace d r ops → ∃ op ∈ ops, s.op = op.abs := by
+theorem mem_trace {d : Dpb} : ∀ {ops : List Op} {r : Raw} {s : Step}, s ∈ trace d r ops → ∃ op ∈ ops, ∃ v, s.op = op.abs v := by
   intro ops
   induction ops with
   | nil => intro r s hs; cases hs
   | cons op ops ih =>
     intro r s hs
     rcases List.mem_cons.1 hs with rfl | hs
-    · exact ⟨op, List.mem_cons_self, rfl⟩
+    · exact ⟨op, List.mem_cons_self, _, rfl⟩
     · obtain ⟨o, ho, e⟩ := ih hs
       exact ⟨o, List.mem_cons_of_mem _ ho, e⟩
 
@@ -263,7 +363,7 @@ theorem mem_trace_inv {d : Dpb} (hg : DpbGood d) : ∀ {ops : List Op} {r : Raw}
   | nil => intro r s _ _ hs; cases hs
   | cons op ops ih =>
     intro r s h hok hs
-    obtain ⟨h1, _⟩ := step_refines h hg op (hok op List.mem_cons_self)
+    obtain ⟨h1, _, _⟩ := step_refines h hg op (hok op List.mem_cons_self)
     rcases List.mem_cons.1 hs with rfl | hs
     · exact ⟨_, h1, rfl⟩
     · exact ih h1 (fun o ho => hok o (List.mem_cons_of_mem _ ho)) hs
@@ -296,7 +396,7 @@ theorem cpm_put_reads_back {d : Dpb} (hg : DpbGood d) {r r1 : Raw} {f : FImg} {n
 /-- C02 for the concrete model: a file that no operation of the history names is found bit-identical
 (content, length, flags, blocks) in the reading of the final image -/
 theorem cpm_bystanders_survive {d : Dpb} (hg : DpbGood d) {r : Raw} (h : Inv d r) {ops : List Op} (hok : ∀ op ∈ ops, op.Ok d)
-    {q : Bytes} {g : FileRec} (hgq : (volOf d r).lookup q = some g) (hq : ∀ op ∈ ops, q ∉ op.abs.targets) :
+    {q : Bytes} {g : FileRec} (hgq : (volOf d r).lookup q = some g) (hq : ∀ op ∈ ops, q ∉ op.names) :
     (volOf d (finalRaw d r ops)).lookup q = some g := by
   obtain ⟨hv, _, heq⟩ := history_refines hg ops h hok
   have hd : g.isDir = false := by
@@ -306,8 +406,8 @@ theorem cpm_bystanders_survive {d : Dpb} (hg : DpbGood d) {r : Raw} (h : Inv d r
     obtain ⟨k, _, rfl⟩ := hm
     rfl
   have := C02.bystanders_survive_history hv (fun s hs => by
-    obtain ⟨op, ho, e⟩ := mem_trace hs
-    rw [e]; exact hq op ho) hgq hd
+    obtain ⟨op, ho, v, e⟩ := mem_trace hs
+    rw [e]; exact fun hm => hq op ho (Op.abs_targets v op q hm)) hgq hd
   rw [heq] at this
   exact this
 
@@ -348,6 +448,36 @@ theorem cpm_listing_is_history_fold {d : Dpb} (hg : DpbGood d) {r : Raw} (h : In
   have := C05.listing_is_history_fold' hv q
   rw [heq] at this
   exact ⟨this, wfB_paths_nodup (volOf_wf hfin)⟩
+
+theorem Op.abs_retype_flag {v : Vol} {op : Op} {q : Bytes} (h : op.abs v = .retype q) : op.isFlagOp = true := by
+  cases op <;> first | rfl | cases h
+
+/-- **C19 for the concrete CP/M model** ("a file set read-only cannot be deleted, renamed or overwritten through a2kit until the
+protection is removed, while reading it is unaffected"): along ANY history of concrete operations — puts, deletes, renames, `lock`,
+`retype`, `protect`, `unprotect`, of this file or others, successful or refused — in which no `unlock` of `q` succeeded, a read-only
+file `q` is found at the end, still read-only, with the same content, length and blocks; and every delete, rename or overwrite of
+`q` attempted on the way was refused (the code: `FileReadOnly` for delete/rename, `FileExists` for put).  Password protection
+(`protect`) plays no part: a2kit checks no password, a password entry only shows in `access`. -/
+theorem cpm_readonly_survives {d : Dpb} (hg : DpbGood d) : ∀ (ops : List Op) {r : Raw}, Inv d r → (∀ op ∈ ops, op.Ok d) →
+    ∀ {q : Bytes} {f : FileRec}, (volOf d r).lookup q = some f → f.locked = true →
+    (∀ s ∈ trace d r ops, s.ok = true → s.op ≠ .unlock q) →
+    (∃ g, (volOf d (finalRaw d r ops)).lookup q = some g ∧ g.locked = true ∧ g.chunks = f.chunks ∧ g.eof = f.eof ∧ g.owned = f.owned) ∧
+    (∀ s ∈ trace d r ops, (s.op = .delete q ∨ (∃ p, s.op = .rename q p) ∨ (∃ cs e t a, s.op = .put q cs e t a)) → s.ok = false) := by
+  intro ops
+  induction ops with
+  | nil => intro r _ _ q f hf hl _; exact ⟨⟨f, hf, hl, rfl, rfl, rfl⟩, fun s hs => by cases hs⟩
+  | cons op ops ih =>
+    intro r h hok q f hf hl hnu
+    obtain ⟨h1, h2, h3⟩ := step_refines h hg op (hok op List.mem_cons_self)
+    have hhead : (⟨op.abs (volOf d r), (op.run d r).1, volOf d (op.run d r).2⟩ : Step) ∈ trace d r (op :: ops) := List.mem_cons_self
+    obtain ⟨⟨g, hg1, hg2, hg3, hg4, hg5, _⟩, hatt⟩ := ro_step h2 hf hl (volOf_flat hf) (fun e => h3 (Op.abs_retype_flag e))
+      (fun c => hnu _ hhead c.2 c.1)
+    obtain ⟨⟨g', a1, a2, a3, a4, a5⟩, hrest⟩ := ih h1 (fun o ho => hok o (List.mem_cons_of_mem _ ho)) hg1 hg2
+      (fun s hs => hnu s (List.mem_cons_of_mem _ hs))
+    refine ⟨⟨g', a1, a2, by rw [a3, hg3], by rw [a4, hg4], by rw [a5, hg5]⟩, fun s hs => ?_⟩
+    rcases List.mem_cons.1 hs with rfl | hs
+    · exact hatt
+    · exact hrest s hs
 
 /-- does a successful step with this operation take the file away from path `p`? -/
 def removesB (p : Bytes) : FsOp → Bool
@@ -478,6 +608,100 @@ example : PutArgsOk { bsh := 5, exm := 1, dsm := 400, drm := 127, al0 := 0x80, a
 example : DpbGood { bsh := 5, exm := 1, dsm := 400, drm := 127, al0 := 0x80, al1 := 0, v3 := false } ∧
     DpbOk { bsh := 5, exm := 1, dsm := 400, drm := 127, al0 := 0x80, al1 := 0, v3 := false } :=
   ⟨⟨by decide +kernel, by decide⟩, by decide⟩
+
+set_option maxRecDepth 100000 in
+/-- non-vacuity of `cpm_fits_is_accepted`: `c.dat` (2 chunks, 1 extent) fits the example image (12 free blocks, 6 unused entries) -/
+example : ∃ r', Fs.Cpm.put exD exImg exC [0, 0, 0, 0] = (.ok (), r') ∧ Inv exD r' ∧
+    stepOk (cpmParams exD) (volOf exD exImg) (.put (canon exC.fullPath) (putChunks exC) exC.eof 0 0) true (volOf exD r') = true :=
+  cpm_fits_is_accepted exImg_inv exGood (by decide) (by decide) (by decide +kernel) (by decide +kernel) (by decide) (by decide +kernel)
+    (by decide +kernel) (by decide +kernel) (by decide +kernel) (by decide +kernel)
+
+/-- a CP/M 3 volume with label and time stamps, as the model's `format` makes it -/
+def exD3 : Dpb := { exD with v3 := true }
+def exImg3 : Raw := (Fs.Cpm.format exD3 exBlank [86] (some [100, 31, 0, 0])).2
+
+set_option maxRecDepth 100000 in
+/-- on the time-stamped CP/M 3 example volume the hypotheses `hb`, `hts` of `cpm_fits_is_accepted` hold: a2kit's `build_files` accepts
+the directory, every fourth entry is a time-stamp entry (and `c.dat` fits) -/
+example : okB (buildFiles exD3 exD3.v3 (dirOf exD3 exImg3)) = true ∧ tsLayoutB (dirOf exD3 exImg3) = true ∧
+    (findLabel (dirOf exD3 exImg3)).isSome = true ∧
+    exC.chunks.length ≤ (volOf exD3 exImg3).free ∧ extentsNeeded exC (putMaxX exD3 exC) (putSpe exD3) ≤ numFreeExtents (dirOf exD3 exImg3) := by
+  decide +kernel
+
+/-- a CP/M 3 history: put `a.txt`, set it read-only, give it a password, a refused delete and a refused rename of it, `unprotect`,
+a second `unprotect` (refused: no password entry left), `retype` to `sys` -/
+def exOps3 : List Op :=
+  [.put exA [0, 0, 0, 0], .lock [65, 46, 84, 88, 84], .protect [97, 46, 116, 120, 116] [80, 87] true false true,
+   .delete [65, 46, 84, 88, 84], .rename [65, 46, 84, 88, 84] [67], .unprotect [65, 46, 84, 88, 84], .unprotect [65, 46, 84, 88, 84],
+   .retype [65, 46, 84, 88, 84] [115, 121, 115]]
+
+theorem exGood3 : DpbGood exD3 := ⟨by decide +kernel, by decide⟩
+
+set_option maxRecDepth 100000 in
+theorem exImg3_inv : Inv exD3 exImg3 := invB_sound (by decide +kernel)
+
+theorem exOps3_ok : ∀ op ∈ exOps3, op.Ok exD3 := by decide +kernel
+
+set_option maxRecDepth 100000 in
+/-- what the concrete model answers on the CP/M 3 history -/
+example : (trace exD3 exImg3 exOps3).map (·.ok) = [true, true, true, false, false, true, false, true] := by decide +kernel
+
+/-- no successful `unlock` of `q` in a trace, as a computation -/
+def noUnlockB (q : Bytes) (tr : List Step) : Bool :=
+  tr.all (fun s => !s.ok || match s.op with
+    | .unlock p => p != q
+    | _ => true)
+
+theorem noUnlockB_spec {q : Bytes} {tr : List Step} (h : noUnlockB q tr = true) : ∀ s ∈ tr, s.ok = true → s.op ≠ .unlock q := by
+  intro s hs hok e
+  unfold noUnlockB at h
+  rw [List.all_eq_true] at h
+  have := h s hs
+  rw [hok, e] at this
+  simp at this
+
+set_option maxRecDepth 100000 in
+/-- non-vacuity of `cpm_readonly_survives` (and of `protect_step`, `unprotect_step` inside `history_refines`): after put and lock the
+file `A.TXT` is read-only; the rest of the history (protect, refused delete and rename, unprotect, retype) leaves it read-only -/
+example : ∃ g, (volOf exD3 (finalRaw exD3 (finalRaw exD3 exImg3 (exOps3.take 2)) (exOps3.drop 2))).lookup [65, 46, 84, 88, 84] = some g ∧
+    g.locked = true := by
+  have hok2 : ∀ op ∈ exOps3.take 2, op.Ok exD3 := by decide +kernel
+  have hok3 : ∀ op ∈ exOps3.drop 2, op.Ok exD3 := by decide +kernel
+  have hinv := (history_refines exGood3 (exOps3.take 2) exImg3_inv hok2).2.1
+  have hsome : ((volOf exD3 (finalRaw exD3 exImg3 (exOps3.take 2))).lookup [65, 46, 84, 88, 84]).map (·.locked) = some true := by
+    decide +kernel
+  cases hf : (volOf exD3 (finalRaw exD3 exImg3 (exOps3.take 2))).lookup [65, 46, 84, 88, 84] with
+  | none => rw [hf] at hsome; cases hsome
+  | some f =>
+    rw [hf] at hsome
+    have hl : f.locked = true := by simpa using hsome
+    obtain ⟨⟨g, a1, a2, _⟩, _⟩ := cpm_readonly_survives exGood3 (exOps3.drop 2) hinv hok3 hf hl
+      (noUnlockB_spec (by decide +kernel))
+    exact ⟨g, a1, a2⟩
+
+/-- `a.txt` with the interface attribute F5 set in `access` -/
+def exF5 : FImg := { exC with access := [32, 32, 32, 32, 160, 32, 32, 32, 32, 32, 32] }
+
+set_option maxRecDepth 100000 in
+/-- **the defect `proposed_fixes/cpm-put-interface-flags.diff` repairs, on the model as written** (`guardIface := false`): `put` of an
+image that sets F5 is accepted on the example volume, and afterwards a2kit's own `build_files` rejects the directory — so `get` of
+the bystander `A.TXT`, which worked before, fails, and so does `catalog` (C01, C02 violated; the hypothesis `hb` of
+`cpm_fits_is_accepted` is not preserved by `put`) -/
+example : okB (Fs.Cpm.put exD exImg exF5 [0, 0, 0, 0]).1 = true ∧
+    okB (Fs.Cpm.get exD exImg [65, 46, 84, 88, 84]) = true ∧
+    okB (Fs.Cpm.get exD (Fs.Cpm.put exD exImg exF5 [0, 0, 0, 0]).2 [65, 46, 84, 88, 84]) = false ∧
+    okB (Fs.Cpm.catalog exD (Fs.Cpm.put exD exImg exF5 [0, 0, 0, 0]).2) = false := by decide +kernel
+
+/-- the result is this error -/
+def errIs {α : Type} (x : R α) (e : Err) : Bool := match x with
+  | .error e' => decide (e' = e)
+  | .ok _ => false
+
+set_option maxRecDepth 100000 in
+/-- the repaired variant (`guardIface := true`) refuses that image and leaves the volume as it was -/
+example : errIs (Fs.Cpm.put exD exImg { exF5 with guardIface := true } [0, 0, 0, 0]).1 .badFormat = true ∧
+    okB (Fs.Cpm.get exD (Fs.Cpm.put exD exImg { exF5 with guardIface := true } [0, 0, 0, 0]).2 [65, 46, 84, 88, 84]) = true := by
+  decide +kernel
 
 set_option maxRecDepth 100000 in
 example : okB (Fs.Cpm.put exD (Fs.Cpm.format exD exBlank [] none).2 exA [0, 0, 0, 0]).1 = true := by decide +kernel
